@@ -21,7 +21,7 @@ def run(chk: Check) -> None:
     prog = chk.prog
     pc = prog.module('process_comms')
     pl = prog.cls('process_comms.ProcessLauncher')
-    call = pl.methods['__call__']
+    call = prog.view(pl.methods['__call__'])
     # 1. DISP
     tparam = call.params[2]
     subj = None
@@ -51,7 +51,7 @@ def run(chk: Check) -> None:
     # 2. body / handler agreement
     for body_fn, handler, task in (('create_launch_body', '_launch', 'launch'), ('create_continue_body', '_continue', 'continue'), ('create_create_body', '_create', 'create')):
         bf = prog.func(f'process_comms.{body_fn}')
-        hf = pl.methods[handler]
+        hf = prog.view(pl.methods[handler])
         dicts = [n for n in ast.walk(bf.node) if isinstance(n, ast.Dict)]
         outer = None
         for d in dicts:
@@ -81,7 +81,7 @@ def run(chk: Check) -> None:
 
     # 3. rejection guards, 4. persist before run / create does not run, 5. loader
     for handler in ('_launch', '_create'):
-        hf = pl.methods[handler]
+        hf = prog.view(pl.methods[handler])
         cfg = cfg_of(hf)
         ff = chk.ctx.facts.analyse(hf)
         ctor = [n for n in cfg.nodes if any(isinstance(c.func, ast.Name) and c.func.id == 'proc_class' for c in _calls(n))]
@@ -118,7 +118,7 @@ def run(chk: Check) -> None:
             chk.ob('PROV-loader', hf, ok, f'{handler}: constructed with exactly the task\'s positional and keyword arguments', node=c, kind='ctor-args')
     # nowait
     for handler in ('_launch', '_continue'):
-        hf = pl.methods[handler]
+        hf = prog.view(pl.methods[handler])
         cfg = cfg_of(hf)
         ff = chk.ctx.facts.analyse(hf)
         sched = [n for n in cfg.nodes if any(last_name(c) in ('ensure_future', 'create_task') and 'proc.step_until_terminated()' in norm(c) for c in _calls(n))]
@@ -132,7 +132,7 @@ def run(chk: Check) -> None:
             and pid_rets[0].id not in cfg.reachable(awaits, edge_ok=no_exc)
         chk.ob('DOM-nowait', hf, ok, f'{handler}: nowait replies with the id immediately; otherwise the reply is the process\'s outputs or its error (future().result())', kind='replies')
     # _continue
-    cf = pl.methods['_continue']
+    cf = prog.view(pl.methods['_continue'])
     cfg = cfg_of(cf)
     rej = [t for t in cfg.nodes if t.kind == 'test' and norm(t.ast.test) in ('not self._persister', 'self._persister is None')]
     loads = [n for n in cfg.nodes if any(norm(c.func) == 'self._persister.load_checkpoint' for c in _calls(n))]
@@ -144,7 +144,7 @@ def run(chk: Check) -> None:
     ub = [c for c in calls_in_func(cf, 'unbundle')]
     ok = len(ub) == 1 and norm(ub[0].func.value) == 'saved_state' and [norm(a) for a in ub[0].args] == ['self._load_context']
     chk.ob('PROV-loader', cf, ok, 'the process is rebuilt from that checkpoint with the launcher\'s load context', kind='unbundle-with-context')
-    init = pl.methods['__init__']
+    init = prog.view(pl.methods['__init__'])
     ff = chk.ctx.facts.analyse(init)
     icfg = ff.cfg
     ext = [n for n in icfg.nodes if n.kind == 'stmt' and isinstance(n.ast, ast.Assign) and norm(n.ast.targets[0]) == 'self._load_context' and 'copyextend(loader=loader)' in norm(n.ast.value)]
